@@ -430,7 +430,7 @@ class Interp:
         st.hit("probes.context_used_as_decorator")
         self.emit(f"{k} DECORATED x{s.get('calls', 2)} " + ",".join(f"{a}={kw[a]!r}" for a in sorted(kw)))
         self.sig.append("@{" + "".join(sorted(a[0] + a[-1] for a in kw)) + "}")
-        state = {"entered": False}
+        state = {"entered": False, "depth": 0}
 
         def fn():
             state["entered"] = True
@@ -439,6 +439,25 @@ class Interp:
             self.ctx_depth += 1
             try:
                 self.check(f"inside decorated call {k}")
+                if s.get("recursive") and state["depth"] < 2:
+                    # the decorated function calls itself while its context is active (every level enters and leaves afresh)
+                    st.hit("probes.decorated_function_calls_itself")
+                    inner = {key: self.model[key] for key in kw}
+                    state["depth"] += 1
+                    try:
+                        try:
+                            decorated()
+                        finally:
+                            state["depth"] -= 1
+                            for key in kw:
+                                self.model[key] = inner[key]
+                    except SIM_EXC as e:
+                        if not getattr(e, "_sim_injected", False):
+                            self._machinery_raised(k, e)
+                        raise
+                    self.check(f"after recursive decorated call {k}")
+                if state["depth"] > 0:
+                    return None
                 return self.block(s["body"])
             finally:
                 self.ctx_depth -= 1
@@ -652,7 +671,8 @@ class C20(Sim):
         "rule_loaded_through_swapped_factory", "raise_inside_context", "observation_inside_context",
         "assign_named_key_rolled_back", "assign_unnamed_key_persists", "helper_created_under_other_settings_used_now",
         "context_inside_exception_handler", "context_inside_finally_while_exception_propagates", "own_settings_instance",
-        "factory_manager_not_yet_created", "context_created_before_it_is_entered", "context_used_as_decorator",
+        "factory_manager_not_yet_created", "context_created_before_it_is_entered", "context_used_as_decorator", "decorated_function_calls_itself",
+        "warnings_escalated_to_errors",
     ]
 
     # ---- generation --------------------------------------------------------
@@ -675,7 +695,8 @@ class C20(Sim):
                     node["pre"] = [{"k": "assign", "key": rng.choice(keys), "v": rng.choice(VALUES[rng.choice(keys)])}
                                    if False else self._pre_assign(rng, keys) for _ in range(rng.randint(1, 2))]
                 elif rr < 0.15:
-                    node = {"k": "decorated", "kw": kw, "calls": 2, "body": self.gen_block(rng, depth + 1, budget, True, False, raises, named | set(keys))}
+                    node = {"k": "decorated", "kw": kw, "calls": 2, "recursive": rng.random() < 0.4,
+                            "body": self.gen_block(rng, depth + 1, budget, True, False, raises, named | set(keys))}
                 out.append(node)
             elif r < 0.50:
                 # bias: half of the assignments target a key named by an enclosing context
@@ -732,6 +753,8 @@ class C20(Sim):
                 return {"target": "instance", "init": {k: rng.choice(VALUES[k]) for k in rng.sample(KEYS, rng.randint(1, 7))}}
             if r < 0.27:
                 return {"lazy_fm": True}
+            if r < 0.37:
+                return {"warnings_as_errors": True}
             return {}
         if arm == "random":
             for _ in range(8):
@@ -739,7 +762,7 @@ class C20(Sim):
             return
         prog = self.gen_program(rng, raises=False)
         base = dict({"arm": arm, "ops": prog}, **flavour())
-        fl_extra = {k: base[k] for k in ("target", "init", "lazy_fm") if k in base}
+        fl_extra = {k: base[k] for k in ("target", "init", "lazy_fm", "warnings_as_errors") if k in base}
         yield base
         env.reset_settings()
         probe = Outcome()
@@ -788,6 +811,12 @@ class C20(Sim):
         it._frames = []
         st = out.stats
         st.hit("arms." + trace.get("arm", "random"))
+        import warnings as _warnings
+        wctx = _warnings.catch_warnings()
+        wctx.__enter__()
+        if trace.get("warnings_as_errors"):
+            _warnings.simplefilter("error")  # the host program escalates warnings (-W error, pytest filterwarnings=error)
+            st.hit("probes.warnings_escalated_to_errors")
         try:
             try:
                 it.block(trace["ops"])
@@ -807,10 +836,11 @@ class C20(Sim):
         except _Abort:
             pass
         finally:
+            wctx.__exit__(None, None, None)
             sys.settrace(None)
             env.reset_settings()
         inj = trace.get("inject")
-        out.signature = trace.get("target", "g")[0] + ("L" if trace.get("lazy_fm") else "") + "".join(it.sig) + (
+        out.signature = trace.get("target", "g")[0] + ("L" if trace.get("lazy_fm") else "") + ("W" if trace.get("warnings_as_errors") else "") + "".join(it.sig) + (
             f"|{inj['at']}:{inj['exc']}:{inj['levels']}" if inj else "")
         out.nontrivial = st.get("outcomes.context_entered", 0) > 0
         out.digest = it.dig.hex()
